@@ -107,6 +107,20 @@ def feasible_items(tier):
     # nested products whose parts are worked first and whose room is needed again afterwards (every needed machine, worker and room becomes free: feasible)
     for sp in [x for x in F.nested_running_specs() if "two-parts-then-block" in x["label"] or "hull-leaves" in x["label"]] + [x for x in F.nested_order_specs() if "part-first" in x["label"]]:
         out.append((sp, {"rule": "TSLACK", "max_time": F.seq_bound(sp) + 6}))
+    # machine tasks with a machine that is individually absent for a step or two in the middle of (or right before the end of) its task: still feasible
+    for sp in F.sequential_facility_specs()[:2] + [x for x in F.usage_specs() if "machine-and-operator" in x["label"]]:
+        for fn in F.facility_names(sp)[:2]:
+            for cal in ([1], [2], [1, 2], [0, 3]):
+                out.append((sp, {"rule": "TSLACK", "res_absence": {fn: cal}, "max_time": F.seq_bound(sp) + 8}))
+    # a two-pair machine task whose last work is done by one pair while the other pair's machine is away; the follow-up task needs exactly that machine
+    for w0 in (3.0, 5.0):
+        for cal in ([1], [2], [1, 2]):
+            for who in ("robot", "ann"):
+                sp = {"tasks": [{"name": "T0", "work": w0, "nf": True}, {"name": "T1", "work": 2.0, "nf": True}], "links": [[0, 1, "FS"]], "components": [{"name": "C0", "tasks": [0, 1]}],
+                      "workplaces": [{"name": "dock", "cap": 1.0, "targets": [0, 1], "facilities": [{"name": "robot", "skills": {"T0": 1.0, "T1": 1.0}}, {"name": "crane", "skills": {"T0": 1.0}}]}],
+                      "teams": [{"name": "TM0", "targets": [0, 1], "workers": [{"name": "ann", "skills": {"T0": 1.0, "T1": 1.0}, "fskills": {"robot": 1.0, "crane": 1.0}, "cost": 1.0},
+                                                                            {"name": "bob", "skills": {"T0": 1.0}, "fskills": {"robot": 1.0, "crane": 1.0}, "cost": 1.0}]}]}
+                out.append((sp, {"rule": "TSLACK", "res_absence": {who: cal}, "max_time": 20}))
     # automatic tasks bound to a component (workplace without space limit): feasible without any free worker
     for sp in F.auto_placement_specs():
         for aa in (False, True):
@@ -167,6 +181,14 @@ def infeasible_items(tier):
                              {"name": "WP2", "cap": 1.0, "targets": [1], "facilities": [{"name": "f2", "skills": dict(sk2)}]}],
               "teams": [{"name": "TM0", "targets": [0, 1], "workers": [{"name": "W0", "skills": {"weld": 1.0, "paint": 1.0}, "fskills": {"f1": 1.0, "f2": 1.0}, "cost": 1.0}]}]}
         for mt in (12, 30):
+            out.append((sp, {"rule": "TSLACK", "max_time": mt}))
+    # a machine task whose fixed worker list shuts out the only worker who holds the machine's licence
+    for fx in (["bob"], [], ["nobody"]):
+        sp = {"tasks": [{"name": "T0", "work": 2.0, "nf": True, "fixw": fx}, {"name": "T1", "work": 1.0}], "links": [], "components": [{"name": "C0", "tasks": [0]}],
+              "workplaces": [{"name": "WP0", "cap": 1.0, "targets": [0], "facilities": [{"name": "robot", "skills": {"T0": 1.0}}]}],
+              "teams": [{"name": "TM0", "targets": [0, 1], "workers": [{"name": "ann", "skills": {"T0": 1.0, "T1": 1.0}, "fskills": {"robot": 1.0}, "cost": 1.0},
+                                                                    {"name": "bob", "skills": {"T0": 1.0, "T1": 1.0}, "cost": 1.0}]}]}
+        for mt in (6, 14):
             out.append((sp, {"rule": "TSLACK", "max_time": mt}))
     # workers built without the skill keyword and filled in place: the unskilled one must not inherit anything
     for links in ([], [[0, 1, "FS"]]):
